@@ -11,7 +11,7 @@ use crate::views::*;
 use sliding_features::View;
 
 #[derive(Clone, Copy, Debug, PartialEq)]
-pub enum Tail { Constant, Alternating, Increasing }
+pub enum Tail { Constant, Alternating, Increasing, Decreasing }
 fn bounded_memory<T: Dom>(outer: VK, inner: Option<VK>, free: usize, tail: Tail, fill: usize) {
     let positive = outer.needs_positive() || inner.as_ref().map_or(false, |i| i.needs_positive());
     let name = match &inner { Some(i) => format!("{} over {}", outer.name(), i.name()), None => outer.name() };
@@ -25,7 +25,7 @@ fn bounded_memory<T: Dom>(outer: VK, inner: Option<VK>, free: usize, tail: Tail,
     let mut peak_during_fill = 0i64;
     let mut prev = a;
     for t in 0..total {
-        let x = if t < free { pos(T::input(&format!("{p}x{t}"))) } else { match tail { Tail::Constant => a, Tail::Alternating => if t % 2 == 0 { a } else { b }, Tail::Increasing => { let d = T::input(&format!("posd{t}")); T::assume(lt(T::zero(), d)); prev + d } } };
+        let x = if t < free { pos(T::input(&format!("{p}x{t}"))) } else { match tail { Tail::Constant => a, Tail::Alternating => if t % 2 == 0 { a } else { b }, Tail::Increasing => { let d = T::input(&format!("posd{t}")); T::assume(lt(T::zero(), d)); prev + d } Tail::Decreasing => { let d = T::input(&format!("posd{t}")); T::assume(lt(T::zero(), d)); if positive { prev / (T::one() + d) } else { prev - d } } } };
         prev = x;
         alloc::track(|| { v.update(x); let _ = v.last(); });
         let live = alloc::live();
@@ -58,7 +58,10 @@ pub fn units(tier: Tier, seed: u64) -> Vec<Unit> {
                 if !nonlinear || n <= 2 { u.push(unit!(format!("C18/{}/free={free}/tail={tail:?}/total={}", vk.name(), 4 * fill), bounded_memory(vk.clone(), None, free, tail, fill))); }
                 if nonlinear { let mut c = unit!(format!("C18/{}/free={free}/tail={tail:?}/total={}/sample-path", vk.name(), 4 * fill), bounded_memory(vk.clone(), None, free, tail, fill)); c.concolic = Some(seed + 3); u.push(c); }
             }
-            if n == 2 && !heavy { u.push(unit!(format!("C18/{}/free=1/tail=Increasing/total={}", vk.name(), 4 * fill), bounded_memory(vk.clone(), None, 1usize, Tail::Increasing, fill))); }
+            // strictly monotone tails (every eviction removes an extremum; no value ever repeats), along a sampled path
+            if n <= 8 { for tail in [Tail::Increasing, Tail::Decreasing] {
+                let mut c = unit!(format!("C18/{}/free=1/tail={tail:?}/total={}/sample-path", vk.name(), 4 * fill), bounded_memory(vk.clone(), None, 1usize, tail, fill)); c.concolic = Some(seed + 21); u.push(c);
+            } }
         }
     }
     // seeded two-level chains
@@ -76,7 +79,7 @@ pub fn units(tier: Tier, seed: u64) -> Vec<Unit> {
 pub fn meta() -> Meta {
     Meta {
         functions: vec!["every view of the crate ::{new,update,last,drop} at window lengths N (catalogue of C15), seeded two-level chains"],
-        bounds: "N in {1,2,3,8} (quick) / {1,2,3,4,8,16,32} (thorough); the stream runs to 4L values, L = 2N+4 (the window has filled well before L); its first 1..3 values are free solver variables, the rest is a constant or alternating tail of two further symbolic values (and, at N=2, a strictly increasing tail), so ties, zeros and flat stretches are comparison branches (views whose comparisons are nonlinear in the inputs are, above N=2, followed along the path of one pseudo-random sample instead); obligation on every explored path: live bytes at every step in (L,4L] do not exceed the peak over the first L steps (a push-only buffer must reallocate in that range because 4L exceeds twice any capacity reached by L); 16 / 80 seeded two-level chains; path cap 400 / 4000 per unit (reported when hit)",
+        bounds: "N in {1,2,3,8} (quick) / {1,2,3,4,8,16,32} (thorough); the stream runs to 4L values, L = 2N+4 (the window has filled well before L); its first 1..3 values are free solver variables, the rest is a constant or alternating tail of two further symbolic values (and strictly increasing / decreasing tails along a sampled path), so ties, zeros and flat stretches are comparison branches (views whose comparisons are nonlinear in the inputs are, above N=2, followed along the path of one pseudo-random sample instead); obligation on every explored path: live bytes at every step in (L,4L] do not exceed the peak over the first L steps (a push-only buffer must reallocate in that range because 4L exceeds twice any capacity reached by L); 16 / 80 seeded two-level chains; path cap 400 / 4000 per unit (reported when hit)",
         outside: vec!["'millions of values': the claim is 4L", "growth slower than one reallocation per 4L values", "fully free streams beyond the first three values"],
         assumptions: vec!["the counting allocator sees allocations made inside update()/last()/new() of the view under test; allocations inside the engine (term arena, solver I/O) are masked by a thread-local flag set around every Sym operation", "the measurement itself is concrete; the solver decides which comparison paths (and hence buffer histories) are feasible"],
     }
